@@ -153,6 +153,10 @@ ASMJIT_FAVOR_SIZE Error BaseEmitHelper::emit_args_assignment(const FuncFrame& fr
       ASMJIT_ASSERT(cur.is_reg() || cur.is_stack());
       Reg reg;
 
+      // Integer argument that is narrower than its destination has to be extended, the extended value is then stored.
+      bool extend_to_out_type = TypeUtils::is_int(out.type_id()) && TypeUtils::is_int(cur.type_id()) && !cur.is_indirect() &&
+                                TypeUtils::size_of(out.type_id()) > TypeUtils::size_of(cur.type_id());
+
       BaseMem dst_stack_ptr = base_stack_ptr.clone_adjusted(out.stack_offset());
       BaseMem src_stack_ptr = base_arg_ptr.clone_adjusted(cur.stack_offset());
 
@@ -172,6 +176,12 @@ ASMJIT_FAVOR_SIZE Error BaseEmitHelper::emit_args_assignment(const FuncFrame& fr
 
         reg.set_signature_and_id(RegUtils::signature_of(cur.reg_type()), reg_id);
         wd.unassign(var_id, reg_id);
+
+        // The home slot is wider than the argument - sign or zero extend the register first (it's not used for anything
+        // else after this move), the same way as an argument that goes from stack to stack or stays in a register.
+        if (extend_to_out_type) {
+          ASMJIT_PROPAGATE(emit_arg_move(reg, out.type_id(), reg, cur.type_id()));
+        }
       }
       else {
         // Stack to reg move - tricky since we move stack to stack we can decide which register to use. In general
@@ -199,7 +209,7 @@ ASMJIT_FAVOR_SIZE Error BaseEmitHelper::emit_args_assignment(const FuncFrame& fr
       }
 
       // Register to stack move.
-      ASMJIT_PROPAGATE(emit_reg_move(dst_stack_ptr, reg, cur.type_id()));
+      ASMJIT_PROPAGATE(emit_reg_move(dst_stack_ptr, reg, extend_to_out_type ? out.type_id() : cur.type_id()));
       var.mark_done();
     }
   }
